@@ -41,8 +41,8 @@ worker() {
     first=$(grep -m1 'FAILED' $log | awk '{print $NF}')
     case "$m" in
       selftest/refactorings/*) # property-preserving edits (must-pass corpus): the check must stay quiet
-        if [ $rc -eq 0 ]; then echo "quiet    $m (property-preserving edit: exit 0)"; else echo "FALSE-ALARM $m (exit $rc; first: $first)"; fi;;
-      *) if [ $rc -eq 1 ]; then echo "caught   $m ($n obligations; first: $first)"; else echo "MISSED   $m (exit $rc)"; fi;;
+        if [ $rc -eq 0 ]; then echo "quiet    $m (property-preserving edit: exit 0)"; else printf '%s\n' "FALSE-ALARM $m (exit $rc; first: $first)"; fi;;
+      *) if [ $rc -eq 1 ]; then printf '%s\n' "caught   $m ($n obligations; first: $first)"; else echo "MISSED   $m (exit $rc)"; fi;;
     esac
   done < $list
   git -C /repo worktree remove --force $wt
